@@ -20,6 +20,7 @@ from . import c_sd  # noqa: E402,F401
 from . import c_cms  # noqa: E402,F401
 from . import c_kek  # noqa: E402,F401
 from . import c_api  # noqa: E402,F401
+from . import c_connect  # noqa: E402,F401
 from . import c_untrusted  # noqa: E402,F401
 from . import c_rpc  # noqa: E402,F401
 from . import c_epm  # noqa: E402,F401
